@@ -54,6 +54,10 @@ Definition match_small (sh : Z) (o : qobs) (r : qres) : bool :=
   | _ => false
   end.
 
+(* the property's own order claim, checked on the observation itself whenever 0 < c *)
+Definition orders_ok (n : Z) (c : Q) (o : qobs) : bool :=
+  Qle_bool c 0 || ((0 <=? o_lo o) && (o_lo o <? o_hi o) && (o_hi o <=? n + 1)).
+
 Definition is_full (n : Z) (o : qobs) : bool :=
   (o_lo o =? 0) && (o_hi o =? n + 1) && negb (o_amb o) && xeq (XFin 1) (o_conf o).
 
@@ -63,6 +67,7 @@ Definition is_full (n : Z) (o : qobs) : bool :=
 Definition check_small_item (P : Z -> Q) (n : Z) (x : Z) (qbits : Z) (g : list (list (st * list st))) (e : Z) (exact : bool)
                             (c : Q) (o : qobs) : Z * Z * list Z :=
   if negb ((o_n o =? n) && (o_qbits o =? qbits)) then (V_MISMATCH, 1, [0])
+  else if negb (orders_ok n c o) then (V_MISMATCH, 1, [9])
   else if Qle_bool 1 c then (if is_full n o then (V_OK, 3, []) else (V_MISMATCH, 3, [1]))
   else
     let sc := inject_Z (Zpos (Qden c)) in
@@ -134,6 +139,7 @@ Definition check_C11 (line : list Z) : list Z :=
           | XFin q =>
               if (n <=? qci_threshold) || Qltb q 0 || Qltb 1 q then verdict V_MALFORMED 0 (-1) [] else
               if negb ((o_n o =? n) && (o_qbits o =? qb)) then verdict V_MISMATCH 128 0 [] else
+              if negb (orders_ok n c o) then verdict V_MISMATCH 128 9 [] else
               if Qle_bool 1 c then (if is_full n o then verdict V_OK 130 (-1) [] else verdict V_MISMATCH 130 1 []) else
               match mu, l1, r1, b1, b2, ch, cl, ch1 with
               | XFin mu, XFin l1, XFin r1, XFin b1, XFin b2, XFin ch, XFin cl, XFin ch1 =>
